@@ -242,12 +242,13 @@ def run_interleaving(spec):
 
 
 @st.composite
-def cores(draw, q, with_target=False, with_schedule=False):
+def cores(draw, q, with_target=False, with_schedule=False, gap_models=("none",)):
     tdep = draw(st.integers(0, 3)) > 0
     spec = draw(gen.core_spec(core_rings=(2, 2), n_types=(1, 2), rings=(2, 3) if q else (2, 5), ducts=(1, 2),
                               coolant=["sodium", "sodium_se2anl", "lead", "nak"] if tdep else "const",
-                              gap_models=("none",), regimes=("lam", "tra", "tur"), n_steps=(20, 50),
-                              lowfi=True, regions=True, dT=(40.0, 250.0), duct_const=not tdep, max_cells=2))
+                              gap_models=gap_models, regimes=("low", "lam", "tra", "tur"), n_steps=(20, 50),
+                              lowfi=True, regions=True, dT=(40.0, 250.0), duct_const=not tdep, max_cells=2,
+                              conv_approx=True, byp_frac=(0.03, 0.3)))
     if draw(st.booleans()):
         spec["setup"]["param_update_tol"] = gen.r6(draw(gen.logfl(1e-4, 0.1)))
     if with_target:
@@ -261,6 +262,7 @@ def parts(tier):
     q = tier == "quick"
     return [
         Part("alone_vs_core", run_alone_vs_core, strategy=cores(q, with_target=True), examples=48 if q else 1200, timeout=180),
-        Part("type_sharing", run_type_sharing, strategy=cores(q), examples=32 if q else 800, timeout=180),
+        Part("type_sharing", run_type_sharing, strategy=cores(q, gap_models=("none", "flow", "no_flow", "duct_average")),
+             examples=48 if q else 1200, timeout=180),
         Part("interleaving", run_interleaving, strategy=cores(q, with_schedule=True), examples=32 if q else 800, timeout=180),
     ]
